@@ -177,6 +177,7 @@ Definition xb_typed (b : xbind) : bool :=
   | XBList m k => xm_typed m && is_lkey k
   | XBInt m k => xm_typed m && negb (is_lkey k)
   | XBSize m => xm_typed m
+  | XBIndex _ _ | XBOSize _ => true
   end.
 Definition xprog_typed (p : xprog) : bool :=
   forallb xm_typed (xp_mdefs p) && forallb xb_typed (xp_binds p) && body_nofold (xp_body p).
